@@ -1,5 +1,6 @@
 import Driver.Common
 import ScionTime.Model.NtskeSrv
+import ScionTime.Model.AcceptLoop
 open Driver ScionTime.Ntske ScionTime.NtskeSrv
 
 /-- `[aa,bb,-]` list of hex strings (`-` = empty byte string); `[]` is the empty list. -/
@@ -28,6 +29,37 @@ def fmtOut (c : Conn) : String :=
   | .respond msg, .wrote _ => s!"resp={fmtMsg msg} keys=agree"
   | _, .wrote b => s!"error={toHex b}"
 
+/-- what a storm connection contributes to the sequence of results of `Accept`: over TLS every
+    kind is a TCP connection the loop accepts (`none`: its handshake never completes, the handler
+    ends with a read error and nothing of it is observable); over QUIC no kind reaches `Accept`. -/
+def stormAcc (quic : Bool) (kind : String) : Option (List (ScionTime.AcceptLoop.Acc (Option Conn))) :=
+  if quic then
+    if kind = "udpgarbage" ∨ kind = "badalpn" ∨ kind = "hsabort" then some [] else none
+  else
+    if kind = "rst" ∨ kind = "silent" ∨ kind = "garbage" ∨ kind = "badalpn" ∨ kind = "tls12" ∨ kind = "hsabort"
+    then some [.conn none] else none
+
+/-- ks.storm tr= ip= port= clen= segs= storm=<kind.kind…|-> hold=<h>: the accept loop
+    (Model/AcceptLoop.lean) over the storm's connections followed by the genuine one; the answer is
+    the last handler's. -/
+def stormStep (rest : List String) : String :=
+  match kv? rest "tr", (kv? rest "ip").bind parseHex?, (kv? rest "port").bind String.toNat?,
+        (kv? rest "clen").bind String.toNat?, (kv? rest "segs").bind parseHexList?,
+        kv? rest "storm", (kv? rest "hold").bind String.toNat? with
+  | some tr, some ip, some port, some clen, some segs, some storm, some hold =>
+    if (tr ≠ "tls" ∧ tr ≠ "quic") ∨ port ≥ 65536 ∨ clen ≥ 65536 ∨ rest.length ≠ 7 then "bad-op" else
+    let quic := tr = "quic"
+    let kinds := if storm = "-" then [] else storm.splitOn "."
+    if kinds.length > 5000 ∨ hold > kinds.length then "bad-op" else
+    match kinds.mapM (stormAcc quic) with
+    | none => "bad-op"
+    | some accs =>
+      let results := accs.flatten ++ [.conn (some (mkConn quic ip port clen segs))]
+      match (ScionTime.AcceptLoop.answers (fun c => c.map fmtOut) results).getLast? with
+      | some (some a) => s!"ok storm={kinds.length} {a}"
+      | _ => "err no-answer"
+  | _, _, _, _, _, _, _ => "bad-op"
+
 /-- ops (server side of the NTS key exchange; answered by the real accept loops + handlers):
   ks.req  tr=tls|quic ip=<hex of the address text> port=<ntp port> clen=<cookie length> segs=<chunks> gap=<ms>
       one connection; the request is written segment by segment (one TLS record / one QUIC
@@ -41,6 +73,7 @@ def fmtOut (c : Conn) : String :=
 -/
 def step (st : Unit) (toks : List String) : Unit × String :=
   match toks with
+  | "ks.storm" :: rest => (st, stormStep rest)
   | op :: rest =>
     if op ≠ "ks.req" ∧ op ≠ "ks.held" then (st, "bad-op") else
     match kv? rest "tr", (kv? rest "ip").bind parseHex?, (kv? rest "port").bind String.toNat?,
